@@ -390,17 +390,25 @@ def run(ctx: Any, prog: Program) -> None:
             for h in tr.handlers:
                 if dotted(h.type) != 'KeyError':
                     continue
-                stores = [a for a in h.body if isinstance(a, ast.Assign) and any(isinstance(t, ast.Subscript) and isinstance(t.value, ast.Name) and t.value.id == ent_var and dotted(t.slice) == key_var for t in a.targets)
+                stores = [a for hb in h.body for a in ast.walk(hb) if isinstance(a, ast.Assign) and any(isinstance(t, ast.Subscript) and isinstance(t.value, ast.Name) and t.value.id == ent_var and dotted(t.slice) == key_var for t in a.targets)
                           and dotted(a.value) == val_var]
-                # ... on every path: the only way out of the arm before the store is the `$`-prefixed pseudo key of func_instance
+
+                def is_pseudo(t_: ast.AST) -> bool:
+                    # the `$`-prefixed pseudo keys Hammer adds to func_instance (the one documented way past the store)
+                    return any(isinstance(c_, ast.Call) and isinstance(c_.func, ast.Attribute) and c_.func.attr == 'startswith' and c_.args and isinstance(c_.args[0], ast.Constant) and c_.args[0].value == '$' for c_ in ast.walk(t_))
+                # ... on every path: every test that decides whether the store runs is that pseudo-key test - tests enclosing the store, and
+                # tests under which the arm is left before it
                 if stores:
-                    for pre in h.body[:h.body.index(stores[0])]:
+                    st0 = stores[0]
+                    deciding: List[Tuple[ast.AST, ast.AST]] = [(a_.test, a_) for a_ in _anc17(ins, st0, h) if isinstance(a_, ast.If)]
+                    top0 = next(hb for hb in h.body if st0 is hb or any(st0 is x for x in ast.walk(hb)))
+                    for pre in h.body[:h.body.index(top0)]:
                         for leave in [x for x in ast.walk(pre) if isinstance(x, (ast.Continue, ast.Return, ast.Break))]:
                             guard_ = next((a_ for a_ in _anc17(ins, leave, h) if isinstance(a_, ast.If)), None)
-                            pseudo = guard_ is not None and any(isinstance(c_, ast.Call) and isinstance(c_.func, ast.Attribute) and c_.func.attr == 'startswith' and c_.args and isinstance(c_.args[0], ast.Constant) and c_.args[0].value == '$'
-                                                                for c_ in ast.walk(guard_.test))
-                            ctx.check('C17.N8', pseudo, ins, leave, f'the arm for keys unknown to the FGD is left (`{U(guard_.test)[:60] if guard_ is not None else "unconditionally"}`) before the substituted text is stored: whether a '
-                                      '`$variable` in such a key is replaced then depends on that test - with the warn-once set, on whether the same (class, key) was seen earlier in the process', text='unknown keys: no way out before the store')
+                            deciding.append((guard_.test if guard_ is not None else ast.Constant(value=True), leave))
+                    for t_, at_ in deciding:
+                        ctx.check('C17.N8', is_pseudo(t_), ins, at_, f'whether the arm for keys unknown to the FGD stores the substituted text depends on `{U(t_)[:60]}`: with the warn-once set that is whether the same '
+                                  '(class, key) was seen earlier in the process, so a `$variable` in such a key is replaced the first time only', text='unknown keys: stored on every path')
                 ctx.check('C17.N8', bool(stores), ins, h, f'a keyvalue the entity definition does not list is skipped without storing the substituted text: `"{{key}}" "$var"` keeps the literal `$var` in the collapsed map',
                           text='unknown keys keep the substituted text')
 
